@@ -658,4 +658,128 @@ Section RosScratch.
       apply G. unfold cinv. cbn [l_s l_fresh]. split; [reflexivity | split; [exact HK | discriminate]].
     Qed.
   End Conservation.
+
+  (* ---------------- C05: the stage loop computes the stages of the declared method ----------------
+     The code keeps function values in the slots of the stage vectors it has not computed yet (slot 0 receives the
+     initial forcing, a stage that evaluates no new function finds the value its predecessor handed on in its own
+     slot) and overwrites each slot with the solution of its stage.  The declared method, written without that
+     sharing: F_0 = f(Y); F_i = f(Y + sum_{j<i} a_ij K_j) when stage i evaluates, F_(i-1) otherwise;
+     K_i = solve (F_i + sum_{j<i} (c_ij / H) K_j).  After the loop, slot i holds K_i for every stage. *)
+  Section StageSpec.
+    Variable H : T.
+    Variable lm : M.
+    Variable lf : F.
+    Variable Y F0 : V.
+
+    Definition spec_step (acc : list V * V) (i : nat) : list V * V :=
+      let '(Ks, Fprev) := acc in
+      let comb := i * (i - 1) / 2 in
+      let Fi := if i =? 0 then F0
+                else if nth i (p_newf p) false then
+                  forcing (fold_left (fun y j => vaxpy (qn N (p_a p) (comb + j)) (nth j Ks Y) y) (seq 0 i) Y) (vzero Y)
+                else Fprev in
+      let rhs := fold_left (fun kk j => vaxpy (ndiv N (qn N (p_c p) (comb + j)) H) (nth j Ks Y) kk) (seq 0 i) Fi in
+      (Ks ++ [if in_place then solve_ip lm rhs else solve_sep lf rhs], Fi).
+    Definition spec_stages (n : nat) : list V * V := fold_left spec_step (seq 0 n) ([], F0).
+
+    Definition sinv (m : nat) (s0 s : rstate) : Prop :=
+      sY s = Y /\ sInitF s = F0 /\ length (sK s) = length (sK s0) /\
+      length (fst (spec_stages m)) = m /\
+      (forall j, j < m -> nth j (sK s) Y = nth j (fst (spec_stages m)) Y) /\
+      (handed m -> nth m (sK s) Y = snd (spec_stages m)).
+
+    Lemma spec_stages_S m : spec_stages (S m) = spec_step (spec_stages m) m.
+    Proof. unfold spec_stages. rewrite seq_S, fold_left_app. reflexivity. Qed.
+
+    Lemma stage_spec s0 s m : p_stages p <= length (sK s0) -> m < p_stages p -> sinv m s0 s ->
+      sinv (S m) s0 (fst (fst (stage1 H s lm lf m))).
+    Proof.
+      intros HK Hm (EY & EF & EL & ELs & HKs & Hh). rewrite stage_step_split. unfold sinv.
+      rewrite spec_stages_S. destruct (spec_stages m) as [Ks Fprev] eqn:Esp. cbn [fst snd] in ELs, HKs, Hh.
+      unfold spec_step.
+      assert (Hlen : m < length (sK s)) by lia.
+      (* the function value of the stage *)
+      set (comb := m * (m - 1) / 2).
+      set (Fi := if m =? 0 then F0
+                 else if nth m (p_newf p) false then
+                   forcing (fold_left (fun y j => vaxpy (qn N (p_a p) (comb + j)) (nth j Ks Y) y) (seq 0 m) Y) (vzero Y)
+                 else Fprev).
+      assert (H1 : let K1 := fst (fst (fst (first_part s m))) in
+                   length K1 = length (sK s) /\ nth m K1 Y = Fi /\ forall j, j <> m -> nth j K1 Y = nth j (sK s) Y).
+      { unfold first_part. cbv zeta. unfold Fi. rewrite EY, EF.
+        destruct (Nat.eqb_spec m 0) as [-> | Hm0]; cbn [fst snd].
+        - unfold kset. split; [apply upd_length | split; [apply nth_upd_eq; exact Hlen | intros j Hj; apply nth_upd_neq; lia]].
+        - destruct (nth m (p_newf p) false) eqn:Hnf; cbn [fst snd].
+          + unfold kset. split; [apply upd_length | split; [|intros j Hj; apply nth_upd_neq; lia]].
+            rewrite nth_upd_eq by exact Hlen.
+            rewrite (Hvz (kget V (sK s) m Y) Y). f_equal.
+            apply fold_seq_ext. intros a j Hj. unfold kget. rewrite (HKs j Hj). reflexivity.
+          + split; [reflexivity | split; [|reflexivity]].
+            apply Hh. split; [lia | split; [exact Hm | exact Hnf]]. }
+      destruct (first_part s m) as [[[K1 Yn1] ev1] nf]. cbn [fst snd] in H1. destruct H1 as (L1 & N1 & O1).
+      unfold tail_part. cbv zeta. rewrite EY. cbn [fst snd sY sInitF sK].
+      set (K2 := if (m + 1 <? p_stages p) && negb (nth (m + 1) (p_newf p) false) then kset V K1 (m + 1) (kget V K1 m Y) else K1).
+      assert (H2 : length K2 = length (sK s) /\ (forall j, j <= m -> nth j K2 Y = nth j K1 Y) /\
+                   (handed (S m) -> nth (S m) K2 Y = Fi)).
+      { unfold K2. destruct ((m + 1 <? p_stages p) && negb (nth (m + 1) (p_newf p) false)) eqn:Hh2.
+        - unfold kset. split; [rewrite upd_length; exact L1 | split; [intros j Hj; apply nth_upd_neq; lia|]].
+          intros _. replace (S m) with (m + 1) by lia. rewrite nth_upd_eq; [exact N1|].
+          apply andb_prop in Hh2. destruct Hh2 as [Hlt _]. apply Nat.ltb_lt in Hlt. lia.
+        - split; [exact L1 | split; [reflexivity|]]. intros (_ & Hlt & Hnf). exfalso.
+          apply Bool.andb_false_iff in Hh2. destruct Hh2 as [Hh2 | Hh2].
+          + apply Nat.ltb_ge in Hh2. lia.
+          + replace (m + 1) with (S m) in Hh2 by lia. rewrite Hnf in Hh2. discriminate. }
+      destruct H2 as (L2 & O2 & Hd2).
+      set (rhs := fold_left (fun kk j => vaxpy (ndiv N (qn N (p_c p) (m * (m - 1) / 2 + j)) H) (kget V K2 j Y) kk) (seq 0 m) (kget V K2 m Y)).
+      assert (Hrhs : rhs = fold_left (fun kk j => vaxpy (ndiv N (qn N (p_c p) (comb + j)) H) (nth j Ks Y) kk) (seq 0 m) Fi).
+      { unfold rhs, kget. rewrite (O2 m (le_n m)), N1.
+        apply fold_seq_ext. intros a j Hj. rewrite (O2 j) by lia. rewrite (O1 j) by lia. rewrite (HKs j Hj). reflexivity. }
+      cbn [fst snd]. fold Fi. rewrite <- Hrhs.
+      set (sol := if in_place then solve_ip lm rhs else solve_sep lf rhs).
+      split; [reflexivity | split; [exact EF | split; [unfold kset; rewrite upd_length, L2; exact EL|]]].
+      split; [rewrite app_length, ELs; cbn [length]; lia|].
+      split.
+      - intros j Hj. unfold kset. destruct (Nat.eq_dec j m) as [-> | Hne].
+        + rewrite nth_upd_eq by lia. rewrite app_nth2 by lia. rewrite ELs, Nat.sub_diag. reflexivity.
+        + rewrite nth_upd_neq by lia. rewrite app_nth1 by lia.
+          rewrite (O2 j) by lia. rewrite (O1 j Hne). apply HKs. lia.
+      - intros Hhd. unfold kset. rewrite nth_upd_neq by lia. apply Hd2. exact Hhd.
+    Qed.
+
+    Lemma stage_keeps_matrices s lm' lf' m :
+      sJac (fst (fst (stage1 H s lm' lf' m))) = sJac s /\ sLU (fst (fst (stage1 H s lm' lf' m))) = sLU s.
+    Proof.
+      rewrite stage_step_split. unfold tail_part. destruct (first_part s m) as [[[K1 Yn1] ev1] nf].
+      cbn [fst snd sJac sLU]. split; reflexivity.
+    Qed.
+
+    Theorem stages_compute_the_declared_method s :
+      p_stages p <= length (sK s) -> sY s = Y -> sInitF s = F0 -> sJac s = lm -> sLU s = lf ->
+      forall i, i < p_stages p ->
+        nth i (sK (fst (fst (stages H s)))) Y = nth i (fst (spec_stages (p_stages p))) Y.
+    Proof.
+      intros HK EY EF EJ EU.
+      unfold stages_loop.
+      assert (G : forall m, m <= p_stages p ->
+        let r := fold_left (fun (acc : rstate * list event * nat) stage =>
+                   let '(s, ev, nf) := acc in
+                   let '(s', ev', nf') := stage1 H s (sJac s) (sLU s) stage in (s', ev ++ ev', nf + nf'))
+                 (seq 0 m) (s, [], 0) in
+        sinv m s (fst (fst r)) /\ sJac (fst (fst r)) = lm /\ sLU (fst (fst r)) = lf).
+      { induction m as [|m IH]; intros Hm; cbv zeta.
+        - cbn [seq fold_left fst]. split; [|split; assumption].
+          split; [exact EY | split; [exact EF | split; [reflexivity | split; [reflexivity | split; [intros j Hj; lia|]]]]].
+          intros (H0 & _). lia.
+        - rewrite seq_S, fold_left_app. cbn [fold_left plus].
+          assert (Hm' : m <= p_stages p) by lia. specialize (IH Hm'). cbv zeta in IH.
+          destruct (fold_left _ (seq 0 m) (s, [], 0)) as [[s1 ev1] nf1]. cbn [fst snd] in IH.
+          destruct IH as (IS & IJ & IU). rewrite IJ, IU.
+          assert (Hlt : m < p_stages p) by lia.
+          pose proof (stage_spec s s1 m HK Hlt IS) as S1.
+          pose proof (stage_keeps_matrices s1 lm lf m) as [S2 S3].
+          destruct (stage1 H s1 lm lf m) as [[s2 ev2] nf2]. cbn [fst snd] in *.
+          split; [exact S1 | split; congruence]. }
+      intros i Hi. destruct (G (p_stages p) (le_n _)) as [(_ & _ & _ & _ & HKs & _) _]. apply HKs. exact Hi.
+    Qed.
+  End StageSpec.
 End RosScratch.
